@@ -212,6 +212,50 @@ def work(job):
         shutil.rmtree(wd, ignore_errors=True)
 
 
+def hash_boundary_part(chk, w2c2):
+    """the static/dynamic split compares SHA-1 digests of code entries: one function for EVERY body size 8..300 bytes (all hash
+    block boundaries and padding cases), reference modules that differ from it only in the last constant, only in the first
+    constant, or in every second function.  Oracle (iii): a function whose code entry is not byte-identical in the reference
+    must not be classified static."""
+    def build(first, last):
+        m = Module()
+        for size in range(8, 301):
+            k = size - 7
+            body = i32_const(first(size)) + DROP + NOP * k + i32_const(last(size))
+            assert len(body) + 2 == size, (size, len(body))
+            m.add_func('', 'i', (), body, export='e%d' % size if size % 50 == 0 else None)
+        return m.encode()
+    base = build(lambda s: 1, lambda s: 2)
+    refs = [('last-constant-differs', build(lambda s: 1, lambda s: 3)), ('first-constant-differs', build(lambda s: 5, lambda s: 2)),
+            ('every-second-function-differs-at-the-end', build(lambda s: 1, lambda s: 2 + (s & 1)))]
+    mybodies = body_bytes(base)
+    wd = tempfile.mkdtemp(prefix='c09h.', dir='/dev/shm')
+    runs = 0
+    try:
+        for rlabel, rwasm in refs:
+            refbodies = set(body_bytes(rwasm))
+            for opts in (['-f', '0'], ['-f', '40', '-t', '3']):
+                rc, err, files = run_translator(w2c2, wd, base, opts, rwasm)
+                runs += 1
+                desc = 'hash-boundary module (293 functions, body sizes 8..300) %s ref=%s' % (' '.join(opts), rlabel)
+                if rc != 0:
+                    chk.violation('config|hash-boundary|translator-failed', {'kind': 'config', 'cell': desc, 'detail': err[-300:]}, '%s: %s' % (desc, err[-200:]))
+                    continue
+                funcs = functions_of(files)
+                wrong = [k for k in sorted(funcs) if funcs[k][0][0].startswith('s') and mybodies[k] not in refbodies]
+                missing = [k for k in range(293) if k not in funcs]
+                if missing:
+                    chk.violation('config|hash-boundary|function-set', {'kind': 'config', 'cell': desc, 'missing': missing[:10]}, '%s: functions %s are not defined in any file' % (desc, missing[:5]))
+                if wrong:
+                    chk.violation('config|hash-boundary|static-misclassified', {'kind': 'config', 'cell': desc, 'functions': wrong[:20], 'body_sizes': [len(mybodies[k]) for k in wrong[:20]],
+                                                                             'how_to_replay': 'python3 checks/c09.py quick'},
+                                  '%s: %d function(s) are in a static file although the reference has no byte-identical code entry, e.g. f%d (code entry of %d bytes)' % (
+                                      desc, len(wrong), wrong[0], len(mybodies[wrong[0]])))
+    finally:
+        shutil.rmtree(wd, ignore_errors=True)
+    return runs
+
+
 def behaviour_jobs(tier):
     """(v) linked output of option variants vs the reference interpreter"""
     jobs = []
@@ -371,6 +415,9 @@ def main(tier):
         elif outs != ref_out[1]:
             dk = [k for k in outs if outs[k] != ref_out[1].get(k)]
             chk.violation('build-variant|%s|different-output' % cfg, {'kind': 'config', 'variant': cfg, 'cells': [str(k) for k in dk[:5]]}, 'build variant %s writes different files than %s for %s' % (cfg, ref_out[0], dk[:3]))
+    hruns = hash_boundary_part(chk, w2c2)
+    runs += hruns
+    chk.cov['hash_boundary_runs'] = hruns
     # ---- E-sched
     import c09_sched, mclib
     try:
@@ -389,7 +436,7 @@ def main(tier):
     chk.cov['sched'] = sched
     chk.cov['rule'] = ('E-config: 3 base modules x {-p}x{-m}x{-g} x {-f 0..#f+1} x {-t 1,2,3,64} x {-d arrays,gnu-ld} x {-r none,self,one-body-changed,locals-changed,disjoint}; '
                        'oracles i-iv, vi per cell; (v) linked variants (gnu-ld via ld -r -b binary) run in lockstep with the reference interpreter; (vii) translator built in the '
-                       'HAS_PTHREAD x HAS_GETOPT x HAS_LIBGEN x HAS_STRDUP configurations must write identical files; E-sched: the real producer/worker protocol under the controlled scheduler - every interleaving of its mutex/condition operations up to the preemption bound, see the sched block. '
+                       'HAS_PTHREAD x HAS_GETOPT x HAS_LIBGEN x HAS_STRDUP configurations must write identical files; static classification also on a module with one function per code-entry size 8..300 bytes against references that differ only in the last / first constant; E-sched: the real producer/worker protocol under the controlled scheduler - every interleaving of its mutex/condition operations up to the preemption bound, see the sched block. '
                        'states = option cells + linked variants + build variants (+ distinct end states of schedules)')
     chk.sample({'cell': 'B1 -p -m -f 2 -t 3 -d gnu-ld ref=one-body-changed', 'oracles': ['exactly-once', 'text = -t 1 -f 0 run', 'static => identical body in reference', 'each file compiles', 'two runs identical']})
     chk.assumptions += ['#line directives from DWARF need libdwarf, which is not installed: -g is exercised with name sections only']
